@@ -8,7 +8,7 @@
      TABLE = ((#KEY #uncompressed) ...), KEY = codec byte followed by the compressed bytes, instantiates `decompress` (phase 2; trusted: cramjam)
      STRICT = 1: a bit-packed run must be present in full; 0: only the bytes of the values needed. *)
 From Coq Require Import NArith ZArith List String Ascii Bool.
-From Pq Require Import Base.Bytes Base.ListX Extract.Sx Thrift.Compact Codec.Hybrid Format.Phys Format.Meta Format.Page Format.File Format.Enc.
+From Pq Require Import Base.Bytes Base.ListX Extract.Sx Thrift.Compact Codec.Hybrid Format.Phys Format.Meta Format.Page Format.File Format.Enc Impl.RPages.
 From Pq Require Extract.Cmd_Thrift.
 Import ListNotations.
 Open Scope string_scope.
@@ -182,6 +182,28 @@ Definition h_fmt_table (a : list sx) : sx :=
   | _ => err "arity"
   end.
 
+(* ---- impl model of the v1 page reader (Impl/RPages.v), for the correspondence with core.read_data_page
+     (fmt_rd_data_page SELFMADE TYPE TLEN MAXDEF NVALS ENC #raw) -> (ok (LEVELS)? v|i (VALUE ...)) | (bad why) | (uns why) *)
+Definition h_fmt_rd_data_page (a : list sx) : sx :=
+  match a with
+  | [sm; ty; tl; md; nv; en; raw] =>
+    match as_bool sm, as_Z ty, as_N tl, as_N md, as_Z nv, as_Z en, as_bytes raw with
+    | Some sm, Some ty, Some tl, Some md, Some nv, Some en, Some raw =>
+      match ptype_of_id ty with
+      | Some t =>
+        s_rs (fun r : option (list N) * rvals =>
+                [sopt (slist sN) (fst r);
+                 match snd r with RVals _ => S_ "v" | RIdx _ => S_ "i" end;
+                 match snd r with RVals vs => slist (fun v => s_cell (Some v)) vs | RIdx ix => slist sN ix end])
+             (rd_data_page sm {| cd_type := t; cd_tlen := tl; cd_maxdef := md |}
+                           {| d_nvals := nv; d_enc := en; d_dle := 3; d_rle := 3 |} raw)
+      | None => err "args"
+      end
+    | _, _, _, _, _, _, _ => err "args"
+    end
+  | _ => err "arity"
+  end.
+
 Definition table : list (string * handler) :=
-  [("fmt_pages", h_fmt_pages); ("fmt_validate", h_fmt_validate); ("fmt_decode", h_fmt_decode);
+  [("fmt_rd_data_page", h_fmt_rd_data_page); ("fmt_pages", h_fmt_pages); ("fmt_validate", h_fmt_validate); ("fmt_decode", h_fmt_decode);
    ("fmt_payloads", h_fmt_payloads); ("fmt_encode", h_fmt_encode); ("fmt_table", h_fmt_table)].
